@@ -12,7 +12,7 @@ import numpy as np
 from ..result import Result
 from .. import refmodel as ref
 from ..kcall import CallInstance, freq_options
-from ..seams import Oracle, NumpyProxy, patched, explore
+from ..seams import Oracle, NumpyProxy, patched, unpatched, explore
 
 META = {
     "level": "model_checking",
@@ -42,9 +42,10 @@ def warm(tier):
         g = np.array([0, 1])
         gibbs_options(g, 0, inst.haps, inst.R, inst.C, 0.2, ll, ll.copy(), ll.copy(), inst.farr, None)
         mh_options(g, 0, inst.haps, inst.R, inst.C, 0.2, ll, ll.copy(), ll.copy(), inst.farr, None)
-        for st in (0, 1):
-            for cache in (False, True):
-                mcmc_sampler(g, inst.haps, inst.R, inst.C, 0.2, inst.farr, 3, cache, st)
+        from mchap.calling.classes import CallingMCMC
+
+        for stype in ("Gibbs", "Metropolis-Hastings"):
+            CallingMCMC(ploidy=2, haplotypes=inst.haps, frequencies=inst.farr, inbreeding=0.2, steps=3, chains=1, random_seed=1, step_type=stype).fit(inst.R, inst.C, initial=g)
 
 
 def plan(tier, seed):
@@ -169,7 +170,8 @@ def job_compound(job):
 
     def rec(**kw):
         visited.append(int(kw["variable_allele"]))
-        return real(**kw)
+        with unpatched():
+            return real(**kw)
 
     for g in inst.gens:
         r.states += 1
@@ -212,23 +214,24 @@ def job_compound(job):
         k = int(np.abs(out - pi).argmax())
         r.violation("compound-stationary|%s" % tag, "pi P != pi: at genotype %s pi=%.12g (pi P)=%.12g" % (inst.gens[k], pi[k], out[k]), payload)
     r.outcome((tag, np.round(M, 9).tolist()))
-    # conformance: jitted sampler only walks positive edges, llk exact
-    from mchap.calling.mcmc import mcmc_sampler
-    from mchap.jitutils import seed_numba
+    # conformance: the jitted sampler (through the public class) only walks positive edges, llk exact
+    from mchap.calling.classes import CallingMCMC
 
     start = max(inst.gens, key=lambda g: post[g])
-    for cache in (False, True):
-        seed_numba(17 + seed)
-        gt, lt = mcmc_sampler(np.array(start), inst.haps, inst.R, inst.C, F, inst.farr, 60, cache, st)
+    model = CallingMCMC(ploidy=P, haplotypes=inst.haps, frequencies=inst.farr, inbreeding=F, steps=60, chains=2, random_seed=17 + seed,
+                        step_type="Gibbs" if st == 0 else "Metropolis-Hastings")
+    tr = model.fit(inst.R, inst.C, initial=np.array(start))
+    for c in range(tr.genotypes.shape[0]):
+        gt, lt = tr.genotypes[c], tr.llks[c]
         prev = start
         for i in range(len(gt)):
             t = tuple(int(x) for x in gt[i])
             r.traces += 1
             if t not in idx or M[idx[prev], idx[t]] <= 0:
-                r.violation("compound-jit-edge|%s|cache=%s" % (tag, cache), "jitted sampler moved %s -> %s which has probability 0 in the model" % (prev, t), payload)
+                r.violation("compound-jit-edge|%s" % tag, "jitted sampler moved %s -> %s which has probability 0 in the model" % (prev, t), payload)
                 break
             if abs(lt[i] - inst.llk(t)) > 1e-9 * max(1, abs(lt[i])):
-                r.violation("compound-jit-llk|%s|cache=%s" % (tag, cache), "jitted trace llk %.12g for %s, reference %.12g" % (lt[i], t, inst.llk(t)), payload)
+                r.violation("compound-jit-llk|%s" % tag, "jitted trace llk %.12g for %s, reference %.12g" % (lt[i], t, inst.llk(t)), payload)
                 break
             prev = t
     r.sample({"instance": tag, "compound_matrix_row0": M[0].round(6).tolist()}, cap=1)
